@@ -5,6 +5,7 @@ package main
 import (
 	"encoding/json"
 	"fmt"
+	"golang.org/x/tools/go/ssa"
 	"os"
 	"path/filepath"
 	"sort"
@@ -47,6 +48,7 @@ type Ctx struct {
 	NoReplay bool
 	Notes    []string
 	rule     string
+	quiet    map[*ssa.Function]int // quietCall memo: 1 quiet, 2 not
 }
 
 // Extra adds a key to the evidence's coverage object.
